@@ -356,17 +356,19 @@ func (hs *clientHandshakeState) doFullHandshake() error {
 	keyAgreement := hs.suite.ka(c.vers)
 
 	skx, ok := msg.(*serverKeyExchangeMsg)
-	if ok {
-		err = keyAgreement.processServerKeyExchange(hs, skx)
-		if err != nil {
-			_ = c.sendAlert(alertUnexpectedMessage)
-			return err
-		}
+	if !ok {
+		_ = c.sendAlert(alertUnexpectedMessage)
+		return unexpectedMessageError(skx, msg)
+	}
+	err = keyAgreement.processServerKeyExchange(hs, skx)
+	if err != nil {
+		_ = c.sendAlert(alertUnexpectedMessage)
+		return err
+	}
 
-		msg, err = c.readHandshake(&hs.finishedHash)
-		if err != nil {
-			return err
-		}
+	msg, err = c.readHandshake(&hs.finishedHash)
+	if err != nil {
+		return err
 	}
 
 	var clientAuthCert *Certificate
